@@ -665,6 +665,19 @@ class VhdlScope:
                 else:
                     raise AssertionError(f"ignored declaration {obj}")
 
+            if isinstance(obj, type) and issubclass(
+                obj, (cohdl_enum.Enum, cohdl_enum.DynamicEnum)
+            ):
+                # the enumeration literals are declared together with the type,
+                # reserve their names so no other object is given the same name
+                if issubclass(obj, cohdl_enum.Enum):
+                    literal_names = list(obj.__members__.keys())
+                else:
+                    literal_names = [member.name for member in obj.__members__]
+
+                for literal_name in literal_names:
+                    self._used_names.add(literal_name.lower())
+
             # set first scope to active so it will be used if no enclosing scope
             # declares obj
             self._declarations[obj] = VhdlScope.Declaration(obj, _is_first, name_hint)
